@@ -29,12 +29,18 @@ type finState struct {
 	rounds int
 }
 
+// maxCollections bounds the real collections of one run (each costs two
+// forced GC cycles); later gc events of the run only age the stub pools.
+const maxCollections = 6
+
 type finSentinel struct {
 	p   *int
 	pad [2]uint64
 }
 
 // SetFinalizer replaces runtime.SetFinalizer.
+//
+//go:norace
 func SetFinalizer(obj any, finalizer any) {
 	s := cur
 	if s == nil || finalizer == nil || s.finishedRun {
@@ -56,13 +62,23 @@ func SetFinalizer(obj any, finalizer any) {
 	st := &s.fin
 	ft := reflect.FuncOf([]reflect.Type{ov.Type()}, nil, false)
 	enqueue := reflect.MakeFunc(ft, func(args []reflect.Value) []reflect.Value {
-		st.mu.Lock()
-		e.obj = args[0]
-		st.queue = append(st.queue, e)
-		st.mu.Unlock()
+		st.enqueue(e, args[0])
 		return nil
 	})
 	runtime.SetFinalizer(obj, enqueue.Interface())
+}
+
+// enqueue is what the real finalizer does (on the runtime's finalizer
+// goroutine). The simulator's own state is never instrumented: it is touched
+// by tasks, by the scheduler (whose synchronisation the race detector is told
+// to ignore) and by the finalizer goroutine, under its own mutex.
+//
+//go:norace
+func (st *finState) enqueue(e *finEntry, obj reflect.Value) {
+	st.mu.Lock()
+	e.obj = obj
+	st.queue = append(st.queue, e)
+	st.mu.Unlock()
 }
 
 // waitFinalizerGoroutine forces a collection and returns once the runtime's
@@ -74,28 +90,33 @@ func waitFinalizerGoroutine() {
 	x = nil
 	for i := 0; ; i++ {
 		runtime.GC()
-		select {
-		case <-done:
-			return
-		default:
+		for spin := 0; spin < 200; spin++ {
+			select {
+			case <-done:
+				return
+			default:
+			}
+			runtime.Gosched()
 		}
-		if i > 2 {
+		if i >= 2 {
 			<-done // the sentinel is queued by now; wait for the finalizer goroutine
 			return
 		}
-		runtime.Gosched()
 	}
 }
 
 // collect is the part of the gc fault event that concerns finalizers. It
 // returns the function a new task must run (nil if nothing was finalized).
+//
+//go:norace
 func (s *Sim) collect() func() {
 	s.fin.mu.Lock()
 	regs := s.fin.regs
 	s.fin.mu.Unlock()
-	if regs == 0 {
+	if regs == 0 || s.fin.rounds >= maxCollections {
 		return nil
 	}
+	s.fin.rounds++
 	// Two rounds: when the second sentinel has run, the whole batch queued by
 	// the first collection has been processed (one goroutine, in order).
 	waitFinalizerGoroutine()
